@@ -323,6 +323,20 @@ class LiveCtx(Ctx):
                 bv = base.__dict__.get('__pane_boundvars__', {})
                 params = [self.describe(p) for p in bv.values()]
                 desc = {'cls': [origin.__name__, params]}
+                if '__origin__' in origin.__dict__:
+                    # subscripted more than once (`P[List[V], W][T, int]`): the arguments of the un-subscripted class are those of
+                    # the earlier subscription with this one's bindings substituted
+                    d0 = self.describe(origin)
+                    by_name = {getattr(k, '__name__', str(k)): self.describe(v) for k, v in bv.items()}
+                    def _subst(j):
+                        if isinstance(j, dict) and 'typevar' in j and j['typevar'][0] in by_name:
+                            return by_name[j['typevar'][0]]
+                        if isinstance(j, dict):
+                            return {k: _subst(v) for k, v in j.items()}
+                        if isinstance(j, list):
+                            return [_subst(x) for x in j]
+                        return j
+                    desc = _subst(d0)
             else:
                 desc = {'cls': [base.__name__, [self.describe(a) for a in args]]}
                 if args:
